@@ -12,6 +12,7 @@ import (
 // SchemeResult is what the real code said about one concretisation of a pair.
 type SchemeResult struct {
 	Scheme   int    `json:"scheme"`
+	Ballast  bool   `json:"ballast"`  // the scheme adds the oracle-neutral ballast element to every group of both sides
 	Valid    bool   `json:"valid"`    // validation.ValidateManifest(m) == nil
 	Cross    string `json:"cross"`    // class of validation.ValidateManifestWithDeployment(&m, groups)
 	ResRej   bool   `json:"resrej"`   // errors.Is(cross error, validation.ErrManifestCrossValidation): "the resource comparison rejects"
@@ -55,6 +56,7 @@ func classify(err error) string {
 // RunPair runs the real validation functions on one pair under one scheme.
 func RunPair(p *Pair, s int) (r SchemeResult, err error) {
 	r.Scheme = s
+	r.Ballast = Ballast(s)
 	groups, err := DGroups(p.D, s, "akash1owner", 1)
 	if err != nil {
 		return r, err
